@@ -45,6 +45,12 @@ def run(R):
         r34(R, tus)
     if R.want("C06.R5"):
         r5(R, tus)
+    if R.want("C06.R6"):
+        from engine import omp
+        R.rule("C06.R6", "every OpenMP directive of closest.c: counters and sums written in a parallel loop are reduction variables, "
+                         "temporaries are private, shared arrays are written at the loop's own row only (E2); the counts the kernels "
+                         "return do not depend on the thread count")
+        omp.report(R, "C06.R6", tus, select=lambda f: f.file == CFILE, floor=3)
 
 
 # --------------------------------------------------------------------------------------------------
@@ -147,10 +153,10 @@ def find_tol_cond(path, tolname):
     return None
 
 
-def r34(R, tus):
-    R.rule("C06.R3", "every scoring kernel and Python reference computes sum_j (h_j - rnd(h_j))^2 with h = ubi.g and "
+def r34(R, tus, r3n="C06.R3", r4n="C06.R4"):
+    R.rule(r3n, "every scoring kernel and Python reference computes sum_j (h_j - rnd(h_j))^2 with h = ubi.g and "
                      "selects with a strict '<' against tol*tol")
-    R.rule("C06.R4", "score_and_refine, refine_assigned and the Python references accumulate R += g h^T, H += h h^T over "
+    R.rule(r4n, "score_and_refine, refine_assigned and the Python references accumulate R += g h^T, H += h h^T over "
                      "the selected peaks, form UB = R.H^-1 and return UB^-1; mean error is sum/n guarded by n>0")
     E, hs = e_ref("k")
     ih = [vn.app("rnd", h) for h in hs]
@@ -185,13 +191,13 @@ def r34(R, tus):
             if pol is False:
                 continue
             same = vn.equal(lhs, E)
-            R.check(same, "C06.R3", CFILE, line, fname, "error compared with tol^2: %s" % text,
+            R.check(same, r3n, CFILE, line, fname, "error compared with tol^2: %s" % text,
                     "the compared quantity is not sum_j (h_j - rnd(h_j))^2 with h = ubi.g (row j of ubi times the "
                     "g-vector): differs from the definition shared with the other kernels", desc="%s: E == E_ref" % fname)
-            R.check(op == "<", "C06.R3", CFILE, line, fname, "comparison operator '%s' in %s" % (op, text),
+            R.check(op == "<", r3n, CFILE, line, fname, "comparison operator '%s' in %s" % (op, text),
                     "the tolerance test is not the strict '<' used by the Python reference (np.less)")
         if fname != "refine_assigned":
-            R.check(ok_any, "C06.R3", CFILE, f.line, fname, "a test '<error> < tol*tol'",
+            R.check(ok_any, r3n, CFILE, f.line, fname, "a test '<error> < tol*tol'",
                     "no comparison of the error with tol*tol found on any path")
         # counts
         if fname == "score":
@@ -200,11 +206,11 @@ def r34(R, tus):
                 if c is None:
                     continue
                 want = 1 if c[2] else 0
-                R.check(path.ret is not None and vn.equal(path.ret, vn.const(want)), "C06.R3", CFILE, f.line, fname,
+                R.check(path.ret is not None and vn.equal(path.ret, vn.const(want)), r3n, CFILE, f.line, fname,
                         "count after one generic peak (%s) = %s" % ("selected" if c[2] else "rejected", path.ret),
                         "the returned count is not the number of selected peaks")
         if fname in ("score_and_refine", "refine_assigned"):
-            r4_kernel(R, f, paths, fname, E, want_ubi, pn)
+            r4_kernel(R, f, paths, fname, E, want_ubi, pn, r4n)
 
     # ---- Python references
     m = pyfacts.module(R, "ImageD11/indexing.py")
@@ -213,17 +219,17 @@ def r34(R, tus):
     GV = np.array([[vn.atom("gv[k][%d]" % c) for c in range(3)]], dtype=object)
     d = I.call("indexing", "calc_drlv2", UBI, GV)
     ok, why = vn_py.same(d, np.array([E], dtype=object))
-    R.check(ok, "C06.R3", m.rel, m.func("calc_drlv2").lineno, "calc_drlv2", "calc_drlv2(UBI, gv) == E_ref",
+    R.check(ok, r3n, m.rel, m.func("calc_drlv2").lineno, "calc_drlv2", "calc_drlv2(UBI, gv) == E_ref",
             "the Python reference error differs from the kernels' definition: " + why)
     for qual in ("refine", "indexer.refine"):
         fn = m.func(qual)
         less = [c for c in ast.walk(fn) if isinstance(c, ast.Call) and (pyfacts.dotted(c.func) or "").split(".")[-1]
                 in ("less", "less_equal", "greater", "greater_equal") and len(c.args) == 2 and "drlv2" in src(c.args[0])]
         R.check(bool(less) and all((pyfacts.dotted(c.func) or "").endswith(".less") and src(c.args[1]) == "tol" for c in less),
-                "C06.R3", m.rel, fn.lineno, qual, "selection %s" % [src(c) for c in less],
+                r3n, m.rel, fn.lineno, qual, "selection %s" % [src(c) for c in less],
                 "the reference must select with np.less(drlv2, tol) where tol has been squared")
         sq = [a for a in ast.walk(fn) if isinstance(a, ast.Assign) and src(a.targets[0]) == "tol" and src(a.value).replace(" ", "") == "tol*tol"]
-        R.check(len(sq) == 1 and all(c.lineno > sq[0].lineno for c in less), "C06.R3", m.rel, fn.lineno, qual, "tol = tol * tol precedes the selection",
+        R.check(len(sq) == 1 and all(c.lineno > sq[0].lineno for c in less), r3n, m.rel, fn.lineno, qual, "tol = tol * tol precedes the selection",
                 "the tolerance is not squared (exactly once) before it is compared with the squared error")
     # normal equations of the Python references (tolerant interpretation, one generic selected peak)
     vn_py.INV_MODE[0] = "atoms"
@@ -238,15 +244,15 @@ def r34(R, tus):
                 out = It.call_fn(m, fn, [obj, UBI], {})
             want = np.array(want_ubi, dtype=object)
             if isinstance(out, vn_py.Poison) or out is None:
-                R.fail("C06.R4: could not value-number %s: %s" % (qual, It.skipped[-3:]))
+                R.fail("C06.R4/C08.R7: could not value-number %s: %s" % (qual, It.skipped[-3:]))
             ok, why = vn_py.same(out, want)
-            R.check(ok, "C06.R4", m.rel, fn.lineno, qual, "returned matrix == inv(R . inv(H)), R = g h^T, H = h h^T",
+            R.check(ok, r4n, m.rel, fn.lineno, qual, "returned matrix == inv(R . inv(H)), R = g h^T, H = h h^T",
                     "the Python reference's refined matrix differs from (sum g h^T)(sum h h^T)^-1 inverted: " + why)
     finally:
         vn_py.INV_MODE[0] = "explicit"
 
 
-def r4_kernel(R, f, paths, fname, E, want_ubi, pn):
+def r4_kernel(R, f, paths, fname, E, want_ubi, pn, r4n="C06.R4"):
     ubi_n = pn[0]
     good = 0
     for path in paths:
@@ -264,7 +270,7 @@ def r4_kernel(R, f, paths, fname, E, want_ubi, pn):
                 inv_fail = True
         if wrote:
             if inv_fail:
-                R.violation("C06.R4", CFILE, f.line, fname, "store to ubi on path %s" % [(c[4], c[3]) for c in path.conds],
+                R.violation(r4n, CFILE, f.line, fname, "store to ubi on path %s" % [(c[4], c[3]) for c in path.conds],
                             "ubi is overwritten on a path where a 3x3 inversion reported failure")
                 continue
             if not selected:
@@ -272,10 +278,10 @@ def r4_kernel(R, f, paths, fname, E, want_ubi, pn):
             good += 1
             got = [[path.out[ubi_n].get((i, j)) for j in range(3)] for i in range(3)]
             if any(x is None for row in got for x in row):
-                R.check(False, "C06.R4", CFILE, f.line, fname, "all nine ubi cells written", "only part of ubi is written back")
+                R.check(False, r4n, CFILE, f.line, fname, "all nine ubi cells written", "only part of ubi is written back")
                 continue
             ok, why = vn_py.same(np.array(got, dtype=object), np.array(want_ubi, dtype=object))
-            R.check(ok, "C06.R4", CFILE, f.line, fname, "ubi := inv3x3(R . inv3x3(H)) with R[i][j] += rnd(h_j) g_i, H[i][j] += rnd(h_i) rnd(h_j)",
+            R.check(ok, r4n, CFILE, f.line, fname, "ubi := inv3x3(R . inv3x3(H)) with R[i][j] += rnd(h_j) g_i, H[i][j] += rnd(h_i) rnd(h_j)",
                     "the refined matrix is not (sum g h^T)(sum h h^T)^-1 inverted with the shared index order: " + why)
         # outputs n and mean on every path
         outs = {k: v for k, v in path.out.items() if k != ubi_n}
@@ -285,10 +291,10 @@ def r4_kernel(R, f, paths, fname, E, want_ubi, pn):
             m_out = outs[names[1]].get((0,))
             wantn = vn.const(1 if selected else 0)
             wantm = E if selected else vn.const(0)
-            R.check(n_out is not None and vn.equal(n_out, wantn) and m_out is not None and vn.equal(m_out, wantm), "C06.R4", CFILE,
+            R.check(n_out is not None and vn.equal(n_out, wantn) and m_out is not None and vn.equal(m_out, wantm), r4n, CFILE,
                     f.line, fname, "outputs after one generic peak (%s): n=%s mean=%s" % ("selected" if selected else "not selected", n_out, vn_py._short(m_out) if m_out is not None else None),
                     "count / mean squared error returned do not equal the number of selected peaks and sum/n")
-    R.check(good >= 1, "C06.R4", CFILE, f.line, fname, "a path that writes the refined matrix", "no path writes ubi")
+    R.check(good >= 1, r4n, CFILE, f.line, fname, "a path that writes the refined matrix", "no path writes ubi")
 
 
 # --------------------------------------------------------------------------------------------------
